@@ -169,7 +169,11 @@ class ZConfigParser:
 
     def handle_include(self, section, rest):
         rest = self.replace(rest.strip())
-        newurl = ZConfig.url.urljoin(self.url, rest)
+        try:
+            newurl = ZConfig.url.urljoin(self.url, rest)
+        except ValueError as e:
+            # urllib refuses some malformed references (e.g. "http://[x")
+            self.error(f"malformed %include argument {rest!r}: {e}")
         self.context.includeConfiguration(section, newurl, self.defines)
 
     def handle_define(self, section, rest):
